@@ -226,7 +226,10 @@ func c18HNewEnv() *c18HEnv {
 // (including the final snapshot), or a violation found while running.
 func c18HRun(c c18HCase, env *c18HEnv, rep int) (hist []c18Rec, viol *C18Viol) {
 	cacheIface := NewLRUCache(c.Cap)
-	lru := cacheIface.(*lruCache)
+	// The structural part below reads the fields of the repository's LRU.  A tree whose constructor hands out another
+	// implementation of the Cache interface (for some capacities, say) is not wrong for that: the history is then judged
+	// as a black box (Get/Put records plus quiescent Gets of every key), without the structural invariants.
+	lru, _ := cacheIface.(*lruCache)
 
 	// Every Put gets its own value: a distinct pointer to a copy of the key's
 	// expanded public key (so CompressedY() is the key).  Value ids start at 1.
@@ -351,6 +354,35 @@ func c18HRun(c c18HCase, env *c18HEnv, rep int) (hist []c18Rec, viol *C18Viol) {
 	// ---- quiescence: structural invariants (no call is in flight any more) ----
 	bad := func(format string, a ...interface{}) *C18Viol {
 		return &C18Viol{Sig: "lruCache:structural-invariant-broken", Detail: fmt.Sprintf(format, a...) + "\nhistory:\n" + c18DumpHistory(hist)}
+	}
+	if lru == nil {
+		resident := 0
+		for i := 0; i < c.NKeys; i++ {
+			key := env.keys[i]
+			rec := c18Rec{Client: 0, In: c18In{Op: c18OpGet, K: i}}
+			rec.Call = atomic.AddInt64(&clk, 1)
+			got := cacheIface.Get(&key)
+			rec.Ret = atomic.AddInt64(&clk, 1)
+			switch {
+			case got == nil:
+				rec.Out.Val = c18Miss
+			default:
+				resident++
+				id, ok := ptrID[got]
+				if !ok {
+					id = c18Foreign
+				}
+				rec.Out.Val = id
+				if got.CompressedY() != key {
+					return hist, &C18Viol{Sig: "lruCache.Get:returned-key-of-different-public-key", Detail: c18DumpHistory(hist)}
+				}
+			}
+			hist = append(hist, rec)
+		}
+		if resident > c.Cap {
+			return hist, &C18Viol{Sig: "cache:holds-more-than-its-capacity", Detail: fmt.Sprintf("%d keys resident after quiescence, capacity %d (opaque cache type %T)\nhistory:\n%s", resident, c.Cap, cacheIface, c18DumpHistory(hist))}
+		}
+		return hist, nil
 	}
 	if len(lru.store) != lru.list.Len() {
 		return hist, bad("len(store)=%d != list.Len()=%d (capacity %d)", len(lru.store), lru.list.Len(), c.Cap)
